@@ -271,29 +271,53 @@ def name_patterns():
     return out, uses_match, _sha(path)
 
 
-def _inert(st) -> bool:
-    """a statement that neither compiles nor looks anything up"""
-    if isinstance(st, ast.Expr):
-        v = st.value
-        if isinstance(v, ast.Constant):
+HARMLESS_CALLS = {"isinstance", "str", "len", "bool", "repr", "format", "dict", "type"}
+
+
+def _harmless_call(c: ast.Call) -> bool:
+    f = c.func
+    if isinstance(f, ast.Name):
+        return f.id in HARMLESS_CALLS or f.id.startswith("_location")
+    if isinstance(f, ast.Attribute):
+        if isinstance(f.value, ast.Name) and f.value.id in ("logger", "logging"):
             return True
-        if isinstance(v, ast.Call) and isinstance(v.func, ast.Attribute) and isinstance(v.func.value, ast.Name) \
-                and v.func.value.id == "logger":
-            return not any(isinstance(n, ast.Await) for n in ast.walk(v))
-        return False
-    if isinstance(st, ast.Assign):
-        return not any(isinstance(n, (ast.Call, ast.Await)) for n in ast.walk(st.value))
+        return f.attr in ("get", "format", "lower", "upper", "keys")   # spec.get(...), "…".format(...)
     return False
 
 
-def _is_gate(st) -> bool:
-    if not isinstance(st, ast.If):
+def _inert(st) -> bool:
+    """a statement that neither compiles nor looks anything up: only logging, `_location(...)`,
+    `spec.get(...)`-style reads and plain data"""
+    if any(isinstance(n, (ast.Await, ast.Yield, ast.YieldFrom)) for n in ast.walk(st)):
         return False
-    calls = [n for n in ast.walk(st.test) if isinstance(n, ast.Call)]
-    if not any(ast.unparse(c.func) == "schema.validate" for c in calls):
+    if not isinstance(st, (ast.Expr, ast.Assign, ast.AnnAssign, ast.Pass)):
         return False
+    return all(_harmless_call(n) for n in ast.walk(st) if isinstance(n, ast.Call))
+
+
+def _calls_validate(node) -> bool:
+    return any(isinstance(n, ast.Call) and ast.unparse(n.func) == "schema.validate" for n in ast.walk(node))
+
+
+def _returns_permfail(st: ast.If) -> bool:
     rets = [n for n in st.body if isinstance(n, ast.Return)]
     return bool(rets) and all(isinstance(r.value, ast.Call) and ast.unparse(r.value.func) == "PermFail" for r in rets)
+
+
+def _gate_at(body, i) -> bool:
+    """`if error := schema.validate(…): return PermFail(…)`, or the same split into an assignment and an `if`"""
+    st = body[i]
+    if isinstance(st, ast.If) and _calls_validate(st.test):
+        others = [n for n in ast.walk(st.test) if isinstance(n, ast.Call) and ast.unparse(n.func) != "schema.validate"]
+        return all(_harmless_call(c) for c in others) and _returns_permfail(st)
+    if isinstance(st, (ast.Assign, ast.AnnAssign)) and _calls_validate(st) and i + 1 < len(body):
+        tgt = st.targets[0] if isinstance(st, ast.Assign) else st.target
+        nxt = body[i + 1]
+        if isinstance(tgt, ast.Name) and isinstance(nxt, ast.If) and _returns_permfail(nxt):
+            names = {n.id for n in ast.walk(nxt.test) if isinstance(n, ast.Name)}
+            calls = [n for n in ast.walk(nxt.test) if isinstance(n, ast.Call)]
+            return tgt.id in names and all(_harmless_call(c) for c in calls)
+    return False
 
 
 def schema_gates():
@@ -304,9 +328,9 @@ def schema_gates():
         try:
             tree = ast.parse(path.read_text())
             fn = next(n for n in tree.body if isinstance(n, (ast.AsyncFunctionDef, ast.FunctionDef)) and n.name == fname)
-            for st in fn.body:
-                if _is_gate(st):
-                    gate = True
+            for i, st in enumerate(fn.body):
+                if _calls_validate(st):
+                    gate = _gate_at(fn.body, i)
                     break
                 if not _inert(st):
                     break
